@@ -100,10 +100,89 @@ def _callee_path(t):
     return f.get("resolved", f.get("path"))
 
 
+def _fingerprint(b):
+    cal = set()
+    for bb in b["blocks"]:
+        t = bb["term"]
+        if t["k"] == "call":
+            cp = _callee_path(t)
+            if cp:
+                cal.add("::".join(cp.split("::")[-2:]))
+    return {"args": [b["locals"][q]["ty"]["s"] for q in range(1, b["arg_count"] + 1)], "ret": b["locals"][0]["ty"]["s"],
+            "callees": sorted(cal), "unsafe": bool(b.get("unsafe"))}
+
+
+def fingerprints():
+    p = os.path.join(VERIF, "tables", "fingerprints.json")
+    if not os.path.exists(p):
+        return {}
+    with open(p) as f:
+        return json.load(f)["fns"]
+
+
+def _rename(j, old, new):
+    """rewrite every occurrence of the function path `old` (and of its closures) to `new` in the facts"""
+    def fix(x):
+        if isinstance(x, str):
+            if x == old:
+                return new
+            if x.startswith(old + "::{closure"):
+                return new + x[len(old):]
+            return x
+        if isinstance(x, list):
+            return [fix(y) for y in x]
+        if isinstance(x, dict):
+            return {k: fix(v) for k, v in x.items()}
+        return x
+    for key in ("bodies", "fns"):
+        j[key] = fix(j.get(key, []))
+
+
+def detect_renames(j, known):
+    """a known function that is missing while exactly one unknown function has its signature and (nearly) its set of callees has
+    been renamed or moved: it is analysed under its known name. Returns [(new_path, known_path)]."""
+    fps = fingerprints()
+    if not fps:
+        return []
+    present = {b["path"]: b for b in j["bodies"] if "{closure" not in b["path"]}
+    cfg = j["header"]["cfg"]
+    missing = [m for m in fps if m not in present and cfg in fps[m].get("cfgs", [cfg])]
+    unknown = [u for u in present if u not in known]
+    out = []
+    used = set()
+    for m in sorted(missing):
+        fm = fps[m]
+        best = []
+        for u in unknown:
+            if u in used:
+                continue
+            fu = _fingerprint(present[u])
+            # the receiver type may be spelled through another path after a move; compare the other parameters and the result
+            if len(fu["args"]) != len(fm["args"]) or fu["ret"] != fm["ret"] or fu["unsafe"] != fm["unsafe"]:
+                continue
+            if fu["args"][1:] != fm["args"][1:]:
+                continue
+            a, b_ = set(fu["callees"]), set(fm["callees"])
+            sim = 1.0 if not a and not b_ else len(a & b_) / float(len(a | b_))
+            # same simple name scores as strong evidence (moved between impl blocks / modules)
+            same_name = u.rsplit("::", 1)[-1] == m.rsplit("::", 1)[-1]
+            if sim >= 0.75 or (same_name and sim >= 0.5):
+                best.append((sim + (0.5 if same_name else 0.0), u))
+        best.sort(reverse=True)
+        if best and (len(best) == 1 or best[0][0] - best[1][0] >= 0.2):
+            u = best[0][1]
+            used.add(u)
+            _rename(j, u, m)
+            out.append((u, m))
+    return out
+
+
 def normalise(j, known):
     """inline every non-closure function body that is not in `known` into its direct callers; returns the list of inlined paths"""
     if known is None:
         return []
+    renamed = detect_renames(j, known)
+    j.setdefault("header", {})["renamed"] = renamed
     bodies = {b["path"]: b for b in j["bodies"]}
     done = []
     for _ in range(MAX_ROUNDS):
